@@ -2,8 +2,8 @@
 """Prints the markdown table of DESIGN.md section 18 from seeded/*/meta.json."""
 import glob, json, os, re
 V = os.path.dirname(os.path.dirname(os.path.abspath(__file__)))
-print("| Id | Touches | Needs | Caught by | First run |")
-print("|---|---|---|---|---|")
+print("| Id | Round | Touches | Needs | Caught by | First run |")
+print("|---|---|---|---|---|---|")
 for q in sorted(glob.glob(os.path.join(V, "seeded", "*", "meta.json"))):
     d = json.load(open(q))
     patch = open(os.path.join(os.path.dirname(q), "patch.diff")).read()
@@ -13,12 +13,17 @@ for q in sorted(glob.glob(os.path.join(V, "seeded", "*", "meta.json"))):
     m = re.search(r"(?i)needs?[^.:]*[:.]?\s*(.{20,260}?)(?:\.\s|$)", notes)
     need = (m.group(1) if m else notes[:200]).replace("|", "/")
     how = []
-    for r in d["checks_run"]:
+    for r in d.get("checks_run", []):
         if r["exit"] == 1:
             kind = {"oracle": "failing input", "tie": "broken correspondence, no-failing-input-found"}.get(r.get("replay_kind"), "violation")
             how.append("%s %s (%s)" % (r["check"], r["tier"], kind))
-    first = "at once" if d["first_run"]["result"].startswith("caught") else \
-        "after strengthening: " + d["first_run"].get("strengthened", "").replace("|", "/")
-    print("| %s | %s%s | %s | %s | %s |" % (d["id"], ", ".join(os.path.basename(f) for f in files),
+    fr = d.get("first_run", {"result": "caught"})
+    if fr["result"].startswith("caught"):
+        first = "at once"
+    elif fr.get("strengthened"):
+        first = "after strengthening: " + fr["strengthened"].replace("|", "/")
+    else:
+        first = fr["result"].replace("|", "/")
+    print("| %s | %s | %s%s | %s | %s | %s |" % (d["id"], d.get("round", "?"), ", ".join(os.path.basename(f) for f in files),
                                           (" (" + ", ".join(funcs[:3]) + ")") if funcs else "", need,
                                           "; ".join(how) or "-", first))
